@@ -2144,44 +2144,91 @@ func foldTxnStateMachine(w *core.World, r *core.Report, f *ssa.Function, st map[
 	if cmdPar == nil || prevPar == nil {
 		return false
 	}
-	// the command is only ever looked up in the table
+	// the command is only ever looked up in the table, or compared for (in)equality with string constants (what a
+	// `switch cmd` is), possibly inside a function of the module it is handed to. Every command that is neither a
+	// key of the table nor one of those constants then takes the same way through the function as any other such
+	// command: one representative stands for them all.
 	var table *ssa.Global
-	for _, rf := range *cmdPar.Referrers() {
-		switch x := rf.(type) {
-		case *ssa.DebugRef:
-		case *ssa.Lookup:
-			ld, ok := x.X.(*ssa.UnOp)
-			if !ok || x.Index != ssa.Value(cmdPar) {
-				return false
-			}
-			g, ok := ld.X.(*ssa.Global)
-			if !ok || (table != nil && g != table) {
-				return false
-			}
-			table = g
-		default:
+	var compared []string
+	var usesOf func(par *ssa.Parameter, depth int) bool
+	usesOf = func(par *ssa.Parameter, depth int) bool {
+		if depth > 3 {
 			return false
 		}
+		for _, rf := range *par.Referrers() {
+			switch x := rf.(type) {
+			case *ssa.DebugRef:
+			case *ssa.Lookup:
+				ld, ok := x.X.(*ssa.UnOp)
+				if !ok || x.Index != ssa.Value(par) {
+					return false
+				}
+				g, ok := ld.X.(*ssa.Global)
+				if !ok || (table != nil && g != table) {
+					return false
+				}
+				table = g
+			case *ssa.BinOp:
+				if x.Op != token.EQL && x.Op != token.NEQ {
+					return false
+				}
+				other := x.Y
+				if other == ssa.Value(par) {
+					other = x.X
+				}
+				k, isK := other.(*ssa.Const)
+				if !isK || k.Value == nil || k.Value.Kind() != constant.String {
+					return false
+				}
+				compared = append(compared, constant.StringVal(k.Value))
+			case *ssa.Call:
+				g := x.Call.StaticCallee()
+				if g == nil || x.Call.IsInvoke() || len(g.Blocks) == 0 || g.Pkg != f.Pkg || len(g.Params) != len(x.Call.Args) {
+					return false
+				}
+				for i, a := range x.Call.Args {
+					if a == ssa.Value(par) && !usesOf(g.Params[i], depth+1) {
+						return false
+					}
+				}
+			default:
+				return false
+			}
+		}
+		return true
 	}
-	if table == nil {
+	if !usesOf(cmdPar, 0) {
 		return false
 	}
-	cf := &constFolder{w: w}
-	content, known := cf.mapLiteral(table)
-	if !known {
+	if table == nil && len(compared) == 0 {
 		return false
 	}
 	tab := map[string]int64{}
-	for _, e := range content {
-		v, isC := e.val.(constant.Value)
-		if e.key.Kind() != constant.String || !isC || v.Kind() != constant.Int {
+	if table != nil {
+		cf := &constFolder{w: w}
+		content, known := cf.mapLiteral(table)
+		if !known {
 			return false
 		}
-		k, _ := constant.Int64Val(v)
-		tab[constant.StringVal(e.key)] = k
+		for _, e := range content {
+			v, isC := e.val.(constant.Value)
+			if e.key.Kind() != constant.String || !isC || v.Kind() != constant.Int {
+				return false
+			}
+			k, _ := constant.Int64Val(v)
+			tab[constant.StringVal(e.key)] = k
+		}
 	}
-	cmds := []string{"\x00any other command"}
+	const anyOther = "\x00any other command" // equal to no table key and to no constant the function compares with
+	cmdSet := map[string]bool{anyOther: true, "select": true, "multi": true, "exec": true}
 	for k := range tab {
+		cmdSet[k] = true
+	}
+	for _, k := range compared {
+		cmdSet[k] = true
+	}
+	var cmds []string
+	for k := range cmdSet {
 		cmds = append(cmds, k)
 	}
 	sort.Strings(cmds)
@@ -2212,6 +2259,21 @@ func foldTxnStateMachine(w *core.World, r *core.Report, f *ssa.Function, st map[
 		for _, c := range cmds {
 			if _, _, ok := eval(prev, c); !ok {
 				return false
+			}
+		}
+	}
+	tablePos := f.Pos()
+	if table != nil {
+		tablePos = table.Pos()
+	} else {
+		// no table: the function distinguishes commands by comparison. Its table is read off the function itself —
+		// the commands that, outside a transaction (state "no"), are not treated like any other command, with the
+		// state they lead to; the checks below hold every other state against it, and the last two hold it against
+		// the protocol (select, multi, exec).
+		oNext, oFlush, _ := eval(st["no"], anyOther)
+		for _, c := range cmds {
+			if next, flush, _ := eval(st["no"], c); c != anyOther && (next != oNext || flush != oFlush) {
+				tab[c] = next
 			}
 		}
 	}
@@ -2261,7 +2323,12 @@ func foldTxnStateMachine(w *core.World, r *core.Report, f *ssa.Function, st map[
 			okV = false
 		}
 	}
-	r.Check(okK, "transactionCmdMap/keys", table.Pos(), "command table must be exactly {select, multi, exec}, found %v", cmds[1:])
-	r.Check(okV, "transactionCmdMap/values", table.Pos(), "command table must map select→barrier, multi→begin, exec→commit, found %v", tab)
+	var keys []string
+	for k := range tab {
+		keys = append(keys, k)
+	}
+	sort.Strings(keys)
+	r.Check(okK, "transactionCmdMap/keys", tablePos, "command table must be exactly {select, multi, exec}, found %v", keys)
+	r.Check(okV, "transactionCmdMap/values", tablePos, "command table must map select→barrier, multi→begin, exec→commit, found %v", tab)
 	return true
 }
